@@ -52,7 +52,7 @@ pub fn run(ctx: &Ctx) -> Report {
     rep.assume("segments are at most 65535 bytes (longer ones are documented to panic)");
     rep.assume("values are non-empty");
     rep.assume("views are obtained through App's public accessors over the default MockStorage");
-    for k in ["c07/op_set", "c07/op_remove", "c07/op_raw_set", "c07/readonly_write_attempts", "c07/path_pairs/unrelated", "c07/path_pairs/q-extends-p", "c07/range_compared", "c07/whole_store_compared", "c07/views_compared/segs0", "c07/views_compared/segs1", "c07/op_session_mutable", "c07/op_session_readonly", "c07/held_view_reads_compared"] {
+    for k in ["c07/op_set", "c07/op_remove", "c07/op_raw_set", "c07/readonly_write_attempts", "c07/readonly_write_attempts_with_the_value_already_there", "c07/path_pairs/unrelated", "c07/path_pairs/q-extends-p", "c07/range_compared", "c07/whole_store_compared", "c07/views_compared/segs0", "c07/views_compared/segs1", "c07/op_session_mutable", "c07/op_session_readonly", "c07/held_view_reads_compared"] {
         rep.require(k);
     }
     rep
